@@ -77,7 +77,7 @@ func checkC11(R *Run) {
 			if calleeName(c) != "(hotline.FileStore).Rename" && calleeName(c) != "os.Rename" {
 				continue
 			}
-			src, ok := loadedField(c.Args[0])
+			src, ok := loadedField(resolveLocal(stripConv(c.Args[0])))
 			if _, _, tr := tableRows(c.Args[0]); tr != nil {
 				ok = false
 			}
@@ -625,6 +625,12 @@ func normName(s string) string {
 // of `for _, p := range [...]string{f.a, f.b, f.c}`, every field stored into the literal (the range must cover
 // all of its elements).
 func elemFields(v ssa.Value) []string {
+	// an element of a local array (or a field of a local struct) that merely carries the path
+	if r := resolveLocal(stripConv(v)); r != stripConv(v) {
+		if f, ok := loadedField(r); ok {
+			return []string{f}
+		}
+	}
 	// a column of a literal table of structs that a loop ranges over
 	if _, _, rows := tableRows(v); rows != nil {
 		var out []string
